@@ -20,7 +20,7 @@ structure Verdict where
   fails : List (String × String) := []     -- (kind, detail)
   tags  : List String := []
 
-def isDestSize (entry : Nat) : Bool := entry ≥ 8
+def isDestSize (entry : Nat) : Bool := entry ≥ 8 && entry ≤ 10
 
 def judgeBlock (r : Rec) : Verdict := Id.run do
   let entry := r.nat 0
